@@ -51,6 +51,10 @@ def make_harness(shapes, method_sets):
         reset_all()
         sno = e.choice(len(shapes), "shape")
         recipe = shapes[sno]
+        if e.flag("last_leaf_falsy"):
+            from models.shapes import falsify
+
+            recipe = falsify(recipe)
         mset = e.pick(method_sets, "methods_on")
         methods = METHOD_SETS[mset]
         root = build(recipe)
@@ -275,7 +279,7 @@ def spec(tier: str, seed: int) -> Spec:
     wide = [number(R("VMany", items=(R("VFalsy"), R("VLeaf"), R("VFalsy")))), number(R("VMixed", first=R("VFalsy"), items=(R("VFalsy"),), one=R("VFalsy"))), number(R("VReq", child=R("VMany", items=(R("VLeaf"), R("VFalsy"))))),
             number(R("VMany", items=(R("VLeaf"), R("VSubLeaf"), R("VLeaf")))), number(R("VMixed", first=R("VLeaf"), items=(R("VLeaf"), R("VLeaf")), one=R("VLeaf"))), number(R("VInh", first=R("VLeaf"), items=(R("VLeaf"),), one=None, extra=R("VMany", items=(R("VLeaf"),))))]
     if tier == "quick":
-        dense, sparse = all_shapes(5, 3) + wide, all_shapes(6, 3)[422::2]
+        dense, sparse = all_shapes(5, 3) + wide, all_shapes(6, 3)[422::4]
     else:
         dense, sparse = all_shapes(6, 3) + wide, all_shapes(7, 3)[1320::2]
     var = "lazy: rule action per dispatched node, strict; selectors: shape, which classes carry a visit method"
